@@ -135,6 +135,40 @@ def pWind : P String := do
   let r := windFields FloatFns s wd
   pure (okLine #[r.1, r.2])
 
+/-- `src nx ny xmx ymx (N | xs ys) shape` → all cells, row-major -/
+def pSrc : P String := do
+  let nx ← pNat
+  let ny ← pNat
+  let xmx ← pFloat
+  let ymx ← pFloat
+  let t ← tok
+  let loc ← (if t == "N" then pure none else do
+    let xs ← (match parseFloatHex t with | some v => pure v | none => failure)
+    let ys ← pFloat
+    pure (some (xs, ys)))
+  let sh ← tok
+  pEnd
+  let shape := if sh == "diamond" then SrcShape.diamond else if sh == "circle" then SrcShape.circle
+    else if sh == "point" then SrcShape.point else SrcShape.other
+  let mut out : Array Float := #[]
+  for j in [0:ny] do
+    for i in [0:nx] do
+      out := out.push (idealSource FloatFns nx ny xmx ymx loc shape j i)
+  pure (okLine out)
+
+/-- `pm ny nx f… g…` → `point_measurement` -/
+def pPm : P String := do
+  let ny ← pNat
+  let nx ← pNat
+  let mut f : Array Float := #[]
+  for _ in [0:ny * nx] do
+    f := f.push (← pFloat)
+  let mut g : Array Float := #[]
+  for _ in [0:ny * nx] do
+    g := g.push (← pFloat)
+  pEnd
+  pure (okLine #[pointMeasurement ny nx (fun j i => f.getD (j * nx + i) 0.0) (fun j i => g.getD (j * nx + i) 0.0)])
+
 def pLl2xy : P String := do
   let a ← pFloat
   let b ← pFloat
@@ -536,6 +570,8 @@ def dispatch : P String := do
   let op ← tok
   if op == "solve" then pSolve
   else if op == "wind" then pWind
+  else if op == "src" then pSrc
+  else if op == "pm" then pPm
   else if op == "ll2xy" then pLl2xy
   else if op == "xy2ll" then pXy2ll
   else if op == "psi" then pPsi false
